@@ -46,6 +46,8 @@ type trOp struct {
 	Hide []string `json:"hide,omitempty"`
 	// receiver fields that are not compared (zvdrv drops them from its answer, the adapter does not report them)
 	Drop []string `json:"drop,omitempty"`
+	// result positions holding a closure value [source text, captured…]: the text is not observable; zvdrv blanks it
+	Blank []int `json:"blank,omitempty"`
 }
 
 func tvInt(v int64) TV    { s := strconv.FormatInt(v, 10); return TV{I: &s} }
@@ -69,6 +71,7 @@ type trFn struct {
 	run         func(args []TV, flds []trFld) ([]TV, []trFld)
 	hide        []string
 	drop        []string
+	blank       []int
 }
 
 var trFns []trFn
@@ -110,7 +113,7 @@ func genCTR(r *Rand, tier string, emit func(op any)) {
 			if flds == nil {
 				flds = []trFld{}
 			}
-			emit(trOp{T: f.table, F: f.name, Args: args, Flds: flds, Fuel: 100000, Hide: f.hide, Drop: f.drop})
+			emit(trOp{T: f.table, F: f.name, Args: args, Flds: flds, Fuel: 100000, Hide: f.hide, Drop: f.drop, Blank: f.blank})
 		}
 	}
 }
